@@ -308,7 +308,7 @@ fn any_root() -> Option<(u64, u128, u64)> {
     }
 }
 
-// @harness props=C19 tier=thorough timeout=7200 mem=32
+// @harness props=C19 tier=thorough timeout=3600 mem=32 attempt=1
 // @desc (attempted: did not close in 1800 s in the quick tier - four symbolic xxh3 evaluations) commit slot written by this version and parsed by redb 3.0.0's TransactionHeader::from_bytes yields the same transaction id, data root and system root (page number, checksum, length) - and conversely; field offsets of the 128-byte slot are identical in both versions (the first 112 bytes written by both writers are byte-identical)
 // @functions cur and v3: TransactionHeader::{new,to_bytes,from_bytes}, BtreeHeader::{to_le_bytes,from_le_bytes}, PageNumber::{to_le_bytes,from_le_bytes}, xxh3_checksum (real, both copies)
 // @bound none on the fields: id, both roots (present or not, any valid page number, checksum, length) arbitrary. The stored slot checksum is computed by each version's own xxh3 copy; that the two copies agree is NOT decided here (the equivalence query does not close, DESIGN.md P20), so the `corrupted` flag is compared only in c19_slot_checksum_vectors
@@ -344,7 +344,7 @@ fn c19_slot_fields_cross_read() {
     kani::cover!(user.is_some() && sys.is_none(), "data root only");
 }
 
-// @harness props=C19 tier=thorough timeout=7200 mem=32
+// @harness props=C19 tier=thorough timeout=3600 mem=32 attempt=1
 // @desc (attempted: did not close in 1800 s in the quick tier) checksum agreement on fixed vectors: for three concrete commit slots the slot written by this version verifies under redb 3.0.0's reader (its own xxh3 copy) and conversely - a cross-check of the two xxh3 copies on constants, NOT a proof of their equivalence
 // @functions cur and v3: TransactionHeader::{to_bytes,from_bytes}, hash128_with_seed
 // @bound three concrete slots (constant inputs: CBMC evaluates both hash functions)
